@@ -201,9 +201,10 @@ fn gen_tree(t: &mut Tape, labels: &mut Vec<&'static str>, with_errors: bool) -> 
             _ => ".lua",
         };
         let name = format!("{dir}f{i}{ext}");
-        let class = t.pick(if with_errors { 10 } else { 7 });
-        // classes 5, 6 (and 7 below) only exist with errors: remap so that 0..=6 are the valid-file classes
-        let class = if with_errors { class } else { [0, 1, 2, 3, 4, 8, 9][class] };
+        let class = t.pick(if with_errors { 13 } else { 10 });
+        // classes 5, 6 (and 7 below) only exist with errors: remap so that the others are the valid-file classes
+        let class = if with_errors { class } else { [0, 1, 2, 3, 4, 8, 9, 10, 11, 12][class] };
+        let variant = t.pick(8);
         let messy = messy_program(i + 10 * t.pick(4));
         let content: Vec<u8> = match class {
             0 | 1 => lib_format(&messy, config).unwrap_or(messy).into_bytes(),
@@ -233,11 +234,32 @@ fn gen_tree(t: &mut Tape, labels: &mut Vec<&'static str>, with_errors: bool) -> 
                     f.replace('\n', "\r\n").into_bytes()
                 }
             }
-            _ => {
+            9 => {
                 // formatted, but without the final line ending
                 labels.push("file:formatted-no-final-newline");
                 let f = lib_format(&messy, config).unwrap_or(messy);
                 f.trim_end_matches(|c| c == '\n' || c == '\r').to_string().into_bytes()
+            }
+            10 => {
+                labels.push("file:empty");
+                Vec::new()
+            }
+            11 => {
+                // no token and no comment: the formatted form is the empty file
+                labels.push("file:whitespace-only");
+                ["\n", "\n\n", "  \n", "\t", "\r\n", " ", "\n \n\t\n", "\r\n\r\n"][variant].as_bytes().to_vec()
+            }
+            _ => {
+                // an unformatted file with a line of more than 160 bytes of multi-byte characters (string or comment)
+                labels.push("file:long-non-ascii-line");
+                let ch = ["é", "€", "😀", "ж"][variant % 4];
+                let pad = "x".repeat(variant);
+                let long: String = ch.repeat(90);
+                if variant % 2 == 0 {
+                    format!("local   {pad}s{i} = \"{long}\"\nlocal t{i}  =  1\n").into_bytes()
+                } else {
+                    format!("local   t{i}  =  1 -- {pad}{long}\nlocal u{i} = 2\n").into_bytes()
+                }
             }
         };
         if class <= 1 {
@@ -523,6 +545,13 @@ fn gen_c14(t: &mut Tape, labels: &mut Vec<&'static str>) -> Option<CliCase> {
         argv.push("--verify".into());
         labels.push("verify");
     }
+    if t.chance(50) {
+        // without --check the output format only changes how errors are reported; the outcome must not depend on it
+        // (unified and summary are rejected without --check)
+        argv.push("--output-format".into());
+        argv.push(["Json", "Standard", "json"][t.pick(3)].into());
+        labels.push("output-format-in-write-mode");
+    }
     argv.extend(spec.case.argv.clone());
     argv.extend(gen_file_args(t, &spec, labels));
     // injected faults
@@ -764,9 +793,12 @@ fn gen_c18(t: &mut Tape, labels: &mut Vec<&'static str>) -> Option<CliCase> {
     use crate::gen::{generate, GenOpts};
     let mut case = CliCase::default();
     case.files.insert(".editorconfig".into(), b"root = true\n".to_vec());
-    let opts = gen_optcfg(t, false);
+    let mut opts = gen_optcfg(t, false);
+    let kind = t.pick(12);
+    if kind == 7 || kind >= 10 {
+        opts.sort_requires = Some(true);
+    }
     let config = opts.apply(sl::Config::default());
-    let kind = t.pick(10);
     let k = t.pick(40);
     let mut src = match kind {
         0 | 1 => messy_program(k),
@@ -790,6 +822,12 @@ fn gen_c18(t: &mut Tape, labels: &mut Vec<&'static str>) -> Option<CliCase> {
         8 => {
             labels.push("pair:blank-lines");
             format!("\n\n\nlocal a = 1\n\n\n\n\nlocal b = 2\n\n\n\nreturn a\n\n\n")
+        }
+        10 | 11 => {
+            // a require block at the end of the file whose first member sorts last: lines are inserted behind the last line
+            labels.push("pair:requires-at-end");
+            let head = if kind == 10 { messy_program(k) } else { String::from("local x = 1\n") };
+            format!("{head}\nlocal cc = require(\"cc\")\nlocal aa = require(\"aa\")\nlocal bb = require(\"bb\")\n")
         }
         _ => format!("{}\nlocal   last_line   =   1", messy_program(k)),
     };
@@ -820,7 +858,14 @@ fn gen_c18(t: &mut Tape, labels: &mut Vec<&'static str>) -> Option<CliCase> {
     });
     let mut argv = vec!["--check".to_string(), "--output-format".into(), fmt.into(), "--color".into(), "Never".into()];
     argv.extend(opts.to_flags());
-    argv.push("f.lua".into());
+    if t.chance(50) {
+        // the same text through stdin: the diff is computed by another code path (format_string)
+        labels.push("carrier:stdin");
+        case.stdin = Some(case.files["f.lua"].clone());
+        argv.push("-".into());
+    } else {
+        argv.push("f.lua".into());
+    }
     case.argv = argv;
     Some(case)
 }
@@ -832,11 +877,13 @@ fn c18_oracle(case: &CliCase, run: &CliRun) -> Verdict {
     let Some(formatted) = lib_format(original, config) else { return Verdict::Skip("input does not parse") };
     let stdout = String::from_utf8_lossy(&run.stdout).to_string();
     let differs = formatted != original;
+    // text piped through stdin is reported under the name `stdin`
+    let name = if case.stdin.is_some() { "stdin" } else { "f.lua" };
     if let Some(d) = tree_unchanged(run) {
         return Verdict::Fail(format!("--check changed the file system: {d}"));
     }
     let printed = match args.output_format.as_str() {
-        "summary" => stdout.lines().any(|l| strip_ansi(l) == "f.lua"),
+        "summary" => stdout.lines().any(|l| strip_ansi(l) == name),
         _ => !stdout.trim().is_empty(),
     };
     if printed != differs {
@@ -860,7 +907,7 @@ fn c18_oracle(case: &CliCase, run: &CliRun) -> Verdict {
         "json" => {
             let Some(line) = stdout.lines().next() else { return Verdict::Fail("no JSON output".into()) };
             let Ok(v) = serde_json::from_str::<serde_json::Value>(line) else { return Verdict::Fail("JSON output does not parse".into()) };
-            if v["file"].as_str() != Some("f.lua") {
+            if v["file"].as_str() != Some(name) {
                 return Verdict::Fail(format!("JSON output names file {:?}", v["file"]));
             }
             match apply_json(original, &v["mismatches"]) {
@@ -1941,7 +1988,8 @@ fn gen_c15(t: &mut Tape, labels: &mut Vec<&'static str>) -> Option<CliCase> {
 
 fn c15_oracle(case: &CliCase, run: &CliRun) -> Verdict {
     let args = parse_args(&case.argv);
-    let probe = crate::cli::PROBE;
+    // the text the case carries (the probe program when it comes from the generator)
+    let stdin_text = case.stdin.as_ref().map(|b| String::from_utf8_lossy(b).to_string()).unwrap_or_default();
     let describe = |c: &sl::Config| format!("width {} indent {:?}/{} quotes {:?} calls {:?} collapse {:?} spaces {:?} endings {:?} sort {}", c.column_width, c.indent_type, c.indent_width, c.quote_style, c.call_parentheses, c.collapse_simple_statement, c.space_after_function_names, c.line_endings, c.sort_requires.enabled);
     if case.stdin.is_some() {
         let (dir, name) = match &args.stdin_filepath {
@@ -1955,7 +2003,7 @@ fn c15_oracle(case: &CliCase, run: &CliRun) -> Verdict {
             None => (case.cwd.clone(), "*.lua".to_string()),
         };
         let Some(cfg) = resolve_config(case, &args, &dir, &name) else { return Verdict::Skip("model cannot resolve") };
-        let Some(want) = lib_format(probe, cfg) else { return Verdict::Skip("probe does not format") };
+        let Some(want) = lib_format(&stdin_text, cfg) else { return Verdict::Skip("probe does not format") };
         if run.stdout != want.as_bytes() {
             return Verdict::Fail(format!("stdin was not formatted with the documented configuration ({}); exit {:?}; stderr: {}", describe(&cfg), run.code, String::from_utf8_lossy(&run.stderr).lines().next().unwrap_or("")));
         }
@@ -1969,7 +2017,8 @@ fn c15_oracle(case: &CliCase, run: &CliRun) -> Verdict {
             None => (String::new(), rel.clone()),
         };
         let Some(cfg) = resolve_config(case, &args, &dir, &name) else { return Verdict::Skip("model cannot resolve") };
-        let Some(want) = lib_format(probe, cfg) else { return Verdict::Skip("probe does not format") };
+        let text = String::from_utf8_lossy(&case.files[rel]).to_string();
+        let Some(want) = lib_format(&text, cfg) else { return Verdict::Skip("probe does not format") };
         distinct.insert(describe(&cfg));
         let got = &run.after[rel].bytes;
         if got != want.as_bytes() {
@@ -2055,6 +2104,10 @@ fn c20_carriers() -> Vec<Carrier> {
     for w in [1usize, 2, 3, 4, 8] {
         single.push((format!("indent_width={w}"), OptCfg { indent_type: Some(Indent::Spaces), indent_width: Some(w), ..OptCfg::default() }));
     }
+    // the width of an indentation level also matters under tab indentation (it decides what fits the column width)
+    for w in [1usize, 2, 3, 4, 8] {
+        single.push((format!("indent_width={w}(tabs)"), OptCfg { indent_type: Some(Indent::Tabs), indent_width: Some(w), ..OptCfg::default() }));
+    }
     for v in QUOTES {
         single.push((format!("quote_style={v:?}"), OptCfg { quote_style: Some(v), ..OptCfg::default() }));
     }
@@ -2108,6 +2161,11 @@ fn c20_carriers() -> Vec<Carrier> {
     for w in [1usize, 2, 3, 8] {
         ec(&format!("indent_size={w}"), &format!("indent_style = space\nindent_size = {w}"), OptCfg { indent_type: Some(Indent::Spaces), indent_width: Some(w), ..OptCfg::default() });
         ec(&format!("tab_width={w}"), &format!("indent_style = space\nindent_size = tab\ntab_width = {w}"), OptCfg { indent_type: Some(Indent::Spaces), indent_width: Some(w), ..OptCfg::default() });
+    }
+    for w in [1usize, 2, 3, 8] {
+        // EditorConfig: with tab indentation indent_size is the width of one level (tab_width defaults to it)
+        ec(&format!("indent_size={w}(tabs)"), &format!("indent_style = tab\nindent_size = {w}"), OptCfg { indent_type: Some(Indent::Tabs), indent_width: Some(w), ..OptCfg::default() });
+        ec(&format!("tab_width={w}(tabs)"), &format!("indent_style = tab\nindent_size = tab\ntab_width = {w}"), OptCfg { indent_type: Some(Indent::Tabs), indent_width: Some(w), ..OptCfg::default() });
     }
     ec("end_of_line=lf", "end_of_line = lf", OptCfg { line_endings: Some(Endings::Unix), ..OptCfg::default() });
     ec("end_of_line=crlf", "end_of_line = crlf", OptCfg { line_endings: Some(Endings::Windows), ..OptCfg::default() });
